@@ -22,7 +22,7 @@ instance (c : Cfg) : Decidable c.WF :=
     storage width for which a `reverse_by_twos` ladder exists -/
 theorem shipped_wf : ∀ e ∈ Gen.shipped, (Cfg.mk e.2.1 e.2.2.1 e.2.2.2).WF ∧ e.2.1 ∈ [8, 16, 32, 64, 128] := by decide
 
-theorem shipped_count : Gen.shipped.length = 22 := by decide
+theorem shipped_count : Gen.shipped.length = 25 := by decide
 
 /-- C10 (write a base): `set_mut` refines `List.set`, for all k-mer values, positions and bases -/
 theorem C10_set (c : Cfg) (hc : c.WF) (s : St c) (pos v : Nat) (hp : pos < c.K) (hv : v < 4) :
